@@ -54,6 +54,8 @@ type phaseSpec struct {
 	CrashAt    int64       `json:"crash_at,omitempty"`
 	FaultPoint string      `json:"fault_point,omitempty"`
 	FaultAt    int64       `json:"fault_at,omitempty"`
+	HoldPoint  string      `json:"hold_point,omitempty"`
+	HoldAt     int64       `json:"hold_at,omitempty"`
 	DelaySeed  uint64      `json:"delay_seed,omitempty"`
 	LogPoints  bool        `json:"log_points,omitempty"`
 	Out        string      `json:"out"`
@@ -128,7 +130,7 @@ func storePhase(args []string) int {
 		out.Write(append(b, '\n'))
 	}
 	evf, _ := os.OpenFile(spec.Events, os.O_CREATE|os.O_WRONLY|os.O_APPEND, 0o644)
-	ctl := &hk.Ctl{Seed: spec.DelaySeed, Events: evf, CrashPoint: spec.CrashPoint, CrashAt: spec.CrashAt, FaultPoint: spec.FaultPoint, FaultAt: spec.FaultAt}
+	ctl := &hk.Ctl{Seed: spec.DelaySeed, Events: evf, CrashPoint: spec.CrashPoint, CrashAt: spec.CrashAt, FaultPoint: spec.FaultPoint, FaultAt: spec.FaultAt, HoldPoint: spec.HoldPoint, HoldAt: spec.HoldAt, Held: make(chan struct{})}
 	if spec.LogPoints {
 		ctl.LogPoints = map[string]bool{"*": true}
 	}
@@ -250,6 +252,17 @@ func storePhase(args []string) int {
 		case "stop":
 			st.Stop()
 			emit(phaseEvent{Ev: "stopped"})
+		case "wait_hold":
+			// logical condition (the frozen worker reached its point); the bound only keeps a never-reached point from hanging the phase
+			select {
+			case <-ctl.Held:
+				emit(phaseEvent{Ev: "held"})
+			case <-time.After(20 * time.Second):
+				emit(phaseEvent{Ev: "hold-not-reached"})
+			}
+		case "crash":
+			ctl.Log("crash step")
+			os.Exit(77)
 		}
 	}
 	emit(phaseEvent{Ev: "done", Counts: ctl.Counts()})
